@@ -12,7 +12,7 @@ PKG = "internal/index/manager"
 
 # which trace-spec predicates decide which property
 PRED_PROP = {
-    "C06.NeverStale": "C06", "C06.SearchRight": "C06", "C06.ShownRight": "C06", "C06.truth-undefined": "C06",
+    "C06.NeverStale": "C06", "C06.SearchRight": "C06", "C06.ShownRight": "C06", "C06.ShownRightOnDemand": "C06", "C06.truth-undefined": "C06",
     "C10.FreshViewShowsIndexList": "C10", "C10.ViewComplete": "C10", "C10.ViewStable": "C10", "C08.OneIdPerConn": "C10",
     "C13.ViewReadFails": "C13", "C13.ServedFileGone": "C13", "C13.JobReadFails": "C13", "C13.NoUseAfterFree": "C13", "C13.Balanced": "C13",
     "C13.LockCount": "C13", "C13.DirExactWhenQuiet": "C13", "C13.NoLeak": "C13",
@@ -409,8 +409,15 @@ def run(ctx):
     nwide = 4 if ctx.quick() else 24
     wscheds = load_regress([pid], world="wide") + [dict(s, id="w-" + s["id"]) for s in scheds if s["id"].startswith("g")][:nwide]
     wrows, wcrashes, _ = run_schedules(ctx, wscheds, tag=pid + "_wide", world=wide)
-    return evaluate(ctx, pid, scheds, rows, crashes, states, trans, mc_notes, convs=convs,
-                    extra=[(wide, wscheds, wrows, wcrashes)])
+    api_cov = {}
+    if pid == "C11":
+        # the same calls through the HTTP layer (parameter handling of cmd/pkappa2): spec/ApiTrace.tla
+        import fam_api
+        api_cov = fam_api.api_pass(ctx, generate)
+    level, cov, assumptions = evaluate(ctx, pid, scheds, rows, crashes, states, trans, mc_notes, convs=convs,
+                                       extra=[(wide, wscheds, wrows, wcrashes)])
+    cov.update(api_cov)
+    return level, cov, assumptions
 
 
 def evaluate(ctx, pid, scheds, rows, crashes, states, trans, mc_notes, convs=(), extra=()):
